@@ -67,6 +67,7 @@ class Ctx(object):
         self.classes = set()
         self.notes = []
         self.max_violation_files = 25
+        self.all_items = []
 
     # ---- coverage accounting
     def add_model(self, name, r, extra=None):
@@ -102,6 +103,7 @@ class Ctx(object):
     def report(self, item, replay):
         """A failing item owned by this property.  `replay`: JSON-able dict that reproduces it."""
         e = self.findings.match(self.prop, item)
+        self.all_items.append({"item": item, "lines": replay.get("lines"), "k": replay.get("stmt_index"), "known": e["id"] if e else None})
         if e is not None:
             self.known_hit.setdefault(e["id"], [0, e])[0] += 1
             return "known"
@@ -130,6 +132,9 @@ class Ctx(object):
         os.makedirs(os.path.join(VERIF, "evidence"), exist_ok=True)
         with open(os.path.join(VERIF, "evidence", self.prop + ".json"), "w") as f:
             json.dump(ev, f, indent=1, sort_keys=True)
+        os.makedirs(os.path.join(OUT, "census"), exist_ok=True)
+        with open(os.path.join(OUT, "census", "%s-%s-%d.json" % (self.prop, self.tier, self.seed)), "w") as f:
+            json.dump(self.all_items, f)
         for k, (cnt, e) in sorted(self.known_hit.items()):
             print("KNOWN-FINDING: property=%s %s [%s, %d cases]" % (self.prop, e.get("what", ""), k, cnt))
         seen = set()
